@@ -158,6 +158,7 @@ _reg("lex2", f_lex, 2, -1, 2)
 _reg("lex4", f_lex, 4, 0, 2)
 _reg("lex4n", f_lex, 4, -1, 1)
 _reg("lex6", f_lex, 6, 0, 1)
+_reg("lex6w", f_lex, 6, 0, 2)
 for _a in ("max_eq", "max_leq", "min_eq", "min_geq"):
     for _n in (2, 3, 4):
         _reg(f"{_a}{_n}", f_maxmin, _a, _n, -1, 2)
@@ -255,8 +256,9 @@ def _random_case(r, alg):
         us = [l + r.choice([0, 1, 2, n]) for l in ls]
         return alg, [v0] + ls + us, tuple(rnd_iv(r, v0, v0 + m - 1, r.choice([0, 1, 2, m])) for _ in range(n))
     if alg == "lexicographic_leq":
-        m = r.randint(1, 3)
-        return alg, [], tuple(rnd_iv(r, -2, 3, r.choice([0, 1, 2])) for _ in range(2 * m))
+        m = r.choice([1, 2, 3, 3, 4])
+        lo = r.randint(-2, 1)
+        return alg, [], tuple(rnd_iv(r, lo, lo + 2, r.choice([0, 1, 1, 2])) for _ in range(2 * m))
     if alg in ("max_eq", "max_leq", "min_eq", "min_geq"):
         n = r.randint(2, 7)
         return alg, [], tuple(rnd_iv(r, -5, 5, r.choice([0, 1, 3, 4])) for _ in range(n))
